@@ -12,7 +12,7 @@ use peginator::{ParseError, PegParser};
 use proc_macro2::TokenStream;
 use quote::{format_ident, quote};
 
-use super::common::{safe_ident, CodegenGrammar, CodegenRule, CodegenSettings};
+use super::common::{check_ident, safe_ident, CodegenGrammar, CodegenRule, CodegenSettings};
 use super::include_rule::check_include_cycles;
 
 impl CodegenGrammar for Grammar {
@@ -21,6 +21,9 @@ impl CodegenGrammar for Grammar {
         let mut all_parsers = TokenStream::new();
         let mut all_impls = TokenStream::new();
         let mut cache_entries = TokenStream::new();
+        for derive in &settings.derives {
+            check_ident(derive).with_context(|| "Error processing the derives set")?;
+        }
         check_include_cycles(self)?;
         for rule_entry in &self.rules {
             match rule_entry {
